@@ -23,7 +23,11 @@ THEOREMS = [
     "Nix.C19.C19_only_target",
     "Nix.C19.C19_refused_unchanged",
     "Nix.C19.C19_listed_refused_unchanged",
+    "Nix.C19.C19_getters_read_store",
+    "Nix.C19.C19_observe_is_stored",
     "Nix.C19.C19_force_roundtrip",
+    "Nix.C19.C19_force_refused_unchanged",
+    "Nix.C19.C19_force_only_own_stamp",
 ]
 ASSUMPTIONS = [
     "CPython's datetime (utcfromtimestamp, strftime with glibc's unpadded %Y, strptime, datetime subtraction) is "
